@@ -3,11 +3,11 @@
   fixes/C07-*.patch):
 
     deref, bundle_ring_length, rtosc_message_ring_length, rtosc_message_length,
-    rtosc_valid_message_p,
-  and of the readers whose code the C07 fixes touch:
-    arg_start, arg_size, arg_off, rtosc_argument, rtosc_itr_begin/next.
-  (rtosc_argument_string, rtosc_narguments, rtosc_type, extract_arg, advance_past_dummy_args,
-   rtosc_itr_end are taken unchanged from `Osc/Read.lean`.)
+    rtosc_valid_message_p.
+  The readers the validator has to protect (rtosc_argument_string, rtosc_narguments, rtosc_type,
+  arg_start, arg_size, arg_off, extract_arg, rtosc_argument, rtosc_itr_*) are those of
+  `Osc/Read.lean` (C01), which mirrors the same repaired code (arg_start / arg_off / arg_size
+  measure from the first byte).
 
   Conventions
   * `mem` is the memory block the caller owns (exactly `mem.length` bytes), `len` the length
@@ -196,123 +196,7 @@ def validMessageP (mem : Bytes) (len : Nat) : Res Bool :=
         else if offset2 % 4 ≠ 0 then .ok false
         else (messageLength mem len).bind fun observed => .ok (decide (observed = len))
 
-/-! ### the readers touched by the fixes (all other readers: `Osc/Read.lean`) -/
-
-/-- `arg_pos = args; while(*arg_pos) ++arg_pos; arg_pos += 4-(arg_pos-aligned_ptr)%4;`
-    (`arg_start`, `arg_off`; with fix C07-argstart-empty-typestring) -/
-def argBase (m : Bytes) (args : Nat) : Option Nat :=
-  match nulIdx (m.drop args) with
-  | none => none
-  | some k => some (args + k + (4 - (args + k - (args - 1)) % 4))
-
-/-- `arg_start` (rtosc.c:88) -/
-def argStart (m : Bytes) : Option Nat :=
-  match argString m with
-  | none => none
-  | some a => (argBase m a).map u32
-
-/-- `arg_size(arg_mem, type)` (rtosc.c:102), `arg_mem = m + p`; result as `unsigned`
-    (with fix C07-empty-string-size). -/
-def argSize (m : Bytes) (p : Nat) (t : UInt8) : Option Nat :=
-  if !hasReserved t then some 0
-  else if t = 104 ∨ t = 116 ∨ t = 100 then some 8
-  else if t = 109 ∨ t = 114 ∨ t = 102 ∨ t = 99 ∨ t = 105 then some 4
-  else if t = 83 ∨ t = 115 then
-    match nulIdx (m.drop p) with                   -- while(*arg_pos) ++arg_pos;
-    | none => none
-    | some k => some (u32 (k + (4 - k % 4)))
-  else if t = 98 then
-    match Osc.rd32 m p with
-    | none => none
-    | some len =>
-      let bl := len.toNat
-      let bl := if bl % 4 ≠ 0 then u32 (bl + (4 - bl % 4)) else bl   -- uint32_t blob_length
-      some (u32 (4 + bl))
-  else some 4294967295                             -- `return -1` (not reachable)
-
-/-- the `while(idx--)` loop of `arg_off` -/
-def offLoop (m : Bytes) : Bytes → Nat → Nat → Option Nat
-  | _, 0, pos => some pos
-  | [], _ + 1, _ => none
-  | c :: r, idx + 1, pos =>
-    if c = 91 ∨ c = 93 then offLoop m r (idx + 1) pos     -- idx++ : not a valid arg idx
-    else
-      match argSize m pos c with
-      | none => none
-      | some s => offLoop m r idx (pos + s)
-
-/-- `arg_off` (rtosc.c:140) -/
-def argOff (m : Bytes) (idx : Nat) : Option Nat :=
-  match typeAt m idx with
-  | none => none
-  | some t =>
-    if !hasReserved t then some 0
-    else
-      match argString m with
-      | none => none
-      | some a =>
-        match argBase m a, advancePast m a with
-        | some pos, some a' => (offLoop m (m.drop a') idx pos).map u32
-        | _, _ => none
-
-/-- `rtosc_argument` (rtosc.c:538) -/
-def argument (m : Bytes) (idx : Nat) : Option CVal :=
-  match typeAt m idx, argOff m idx with
-  | some t, some off => extractArg m off t
-  | _, _ => none
-
-/-- `rtosc_itr_begin` (rtosc.c:506) -/
-def itrBegin (m : Bytes) : Option Itr :=
-  match argString m with
-  | none => none
-  | some a =>
-    match advancePast m a, argStart m with
-    | some tp, some vp => some ⟨tp, vp⟩
-    | _, _ => none
-
-/-- `rtosc_itr_next` (rtosc.c:515); `int size = arg_size(..)` -/
-def itrNext (m : Bytes) (it : Itr) : Option ((UInt8 × CVal) × Itr) :=
-  match m[it.typePos]? with
-  | none => none
-  | some t =>
-    match (if t ≠ 0 then extractArg m it.valuePos t else some CVal.zero),
-          advancePast m (it.typePos + 1), argSize m it.valuePos t with
-    | some v, some tp, some size =>
-      if size < 2147483648 then some ((t, v), ⟨tp, it.valuePos + size⟩)
-      else if 4294967296 - size ≤ it.valuePos then
-        some ((t, v), ⟨tp, it.valuePos - (4294967296 - size)⟩)
-      else none
-    | _, _, _ => none
-
-/-- `itr = begin; while(!end(itr)) out.push(next(&itr));` -/
-def iterLoop (m : Bytes) : Nat → Itr → Option (List (UInt8 × CVal))
-  | 0, _ => none
-  | fuel + 1, it =>
-    match itrEnd m it with
-    | none => none
-    | some true => some []
-    | some false =>
-      match itrNext m it with
-      | none => none
-      | some (x, it') => (iterLoop m fuel it').map (x :: ·)
-
-def iterate (m : Bytes) : Option (List (UInt8 × CVal)) :=
-  match itrBegin m with
-  | none => none
-  | some it => iterLoop m (m.length + 1) it
-
-/-- the iterator's output as the caller observes it: every returned union viewed
-    (string up to its NUL, `len` blob bytes; `none` = that read leaves the block) -/
-def iterateView (m : Bytes) : Option (List (UInt8 × Val)) :=
-  match iterate m with
-  | none => none
-  | some l => l.mapM (fun x => (x.2.view m).map (fun v => (x.1, v)))
-
-/-- `rtosc_argument(m, idx)` as the caller observes it -/
-def argumentView (m : Bytes) (idx : Nat) : Option Val :=
-  match argument m idx with
-  | none => none
-  | some v => v.view m
+/-! ### the readers: `Osc/Read.lean` (C01), which mirrors the same repaired code -/
 
 /-- the largest offset (exclusive) a caller touches when it follows the returned union:
     the string's terminator, the blob's last byte -/
